@@ -17,7 +17,7 @@ RULE = ('quick/thorough: EVERY non-decreasing spike-sample train of length <= L 
         'length <= L-2) x (bin, half-window) in {(1,0),(1,1),(2,1),(1,3),(3,2)}, sample rate and '
         'cluster-id list order (a permutation of gappy ids - small ones or, every fifth case, sparse ids up to 100000 - plus one id without spikes) rotating '
         'deterministically; plus seeded random long trains checked by a windowed pair count. '
-        'cluster dtypes int64/int32/uint32/uint16 and integer or float time arrays rotate. Each case checks one-sided counts (twice), the symmetrised array (4 relations), cluster_ids=None, '
+        'cluster dtypes int64/int32/uint32/uint16 and integer or float time arrays rotate; float32 time arrays beyond sample 2**24 on an exactly representable grid; firing_rate with count products beyond 2**31. Each case checks one-sided counts (twice), the symmetrised array (4 relations), cluster_ids=None, '
         'and firing_rate. non-trivial = distinct (train, labels, params, id order) that has equal '
         'times or a pair exactly in the last bin of the window AND an id list that is not sorted.')
 EXHAUSTIVE = {'quick': True, 'thorough': True}
@@ -73,6 +73,16 @@ def run_shard(desc, ctx):
                     'rate': RATES[(idx // 7) % 3], 'perm': list(perm),
                     'unused_pos': (idx // 3) % (k + 1), 'windowed': False, 'bigids': idx % 5 == 0}
             run_case(case, ctx)
+    # float32 time arrays late in a recording (sample numbers beyond 2**24) on an exactly representable grid
+    k0s = [8944, 2 ** 21 + 5]
+    for j, train in enumerate(itertools.combinations_with_replacement(range(5), 4)):
+        if j % desc['n'] != desc['shard']:
+            continue
+        for labels in itertools.product(range(2), repeat=4):
+            run_case({'samples': [1875 * (k0s[j % 2] + t) for t in train], 'labels': list(labels), 'k': 2, 'bin': 1875,
+                      'half': 2, 'rate': 30000.0, 'perm': [1, 0], 'unused_pos': j % 3, 'windowed': False, 'f32': True}, ctx)
+    if desc['shard'] < 3:
+        run_case({'kind': 'firing_rate_big', 'counts': [[1200, 50000, 0, 3], [46341, 46341], [70000, 1, 2]][desc['shard']]}, ctx)
     # random long trains
     rng = np.random.default_rng([desc['seed'], desc['shard'], 15])
     for r in range(desc['nrand'] // desc['n'] + 1):
@@ -90,6 +100,21 @@ def run_shard(desc, ctx):
 
 def run_case(case, ctx):
     from phylib.stats.ccg import correlograms, firing_rate
+    if case.get('kind') == 'firing_rate_big':
+        # size: products of per-cluster counts beyond 2**31
+        counts = case['counts']
+        ids = [9, 4, 6, 2][:len(counts)]
+        sc = np.concatenate([np.full(c, i, dtype=np.int32) for c, i in zip(counts, ids)])
+        ctx.count(1, key=hkey('frbig', tuple(counts)), nontrivial=True, cell=('firing_rate_big',))
+        r = call(firing_rate, sc, cluster_ids=ids, bin_size=0.001, duration=2000.)
+        exp = np.outer(np.array(counts, dtype=np.float64), np.array(counts, dtype=np.float64)) * (0.001 / 2000.)
+        if not r.ok:
+            ctx.violation('raised', case, 'firing_rate raised %r' % r.exc, {'big': True}, tb=r.tb)
+        else:
+            d = same(r.value, exp, dtype=False, rtol=1e-9)
+            if d:
+                ctx.violation('firing_rate_mismatch', case, 'large counts: ' + d, {'big': True})
+        return
     samples = np.asarray(case['samples'], dtype=np.int64)
     labels = np.asarray(case['labels'], dtype=np.int64)
     k, b, h, rate = case['k'], case['bin'], case['half'], case['rate']
@@ -109,6 +134,9 @@ def run_case(case, ctx):
         cdt = 'uint32'
     spike_clusters = np.array([ids[int(l)] for l in labels], dtype=cdt)
     times = samples / rate
+    if case.get('f32'):
+        times = times.astype(np.float32)
+        assert np.array_equal(times.astype(np.float64) * rate, samples)      # exactly representable: in the quantifier
     if rate == 1.0 and (len(labels) + h) % 2:
         times = samples.copy()              # integer times are as good as float ones when the rate is 1
     sc_before, t_before = spike_clusters.copy(), times.copy()
